@@ -79,6 +79,8 @@ pub enum HOp {
     DryRunCommit,
     ReadOnly { which: u8 },
     HumanCheckpoint { file: u8 },
+    /// re-lay-out refs/notes/ai with plumbing: 0 flat, 1 aa/.., 2 aa/bb/.., 3 mixed
+    Relayout { layout: u8 },
 }
 
 impl HOp {
@@ -125,6 +127,7 @@ impl HOp {
             HOp::DryRunCommit => "commit-dry-run",
             HOp::ReadOnly { .. } => "read-only",
             HOp::HumanCheckpoint { .. } => "human-checkpoint",
+            HOp::Relayout { .. } => "notes-relayout",
         }
     }
 }
@@ -365,6 +368,8 @@ pub struct Engine {
     /// C04: lines left out of a partial commit keep their epoch (they are still
     /// pending work of the same change set and must be judged strictly later)
     pub carry_over: bool,
+    /// layout last forced on refs/notes/ai by a Relayout op (None = git's own)
+    pub forced_layout: Option<u8>,
 }
 
 fn sig(pid: &str, s: &str) -> String {
@@ -440,6 +445,7 @@ impl Engine {
             pending_file_state: BTreeMap::new(),
             initial_files: BTreeSet::new(),
             carry_over: false,
+            forced_layout: None,
         };
         e.known_commits = e.all_commits();
         Some(e)
@@ -501,6 +507,12 @@ impl Engine {
             v.push(b);
         }
         v
+    }
+
+    /// true when some note currently sits deeper than one fan-out level
+    fn deep_layout_in_effect(&mut self) -> bool {
+        let o = self.w.rgit(&["ls-tree", "-r", "--name-only", "refs/notes/ai"]);
+        o.out().lines().any(|p| p.matches('/').count() >= 2)
     }
 
     fn pick<'a>(v: &'a [String], i: u8) -> Option<&'a String> {
@@ -850,9 +862,11 @@ impl Engine {
             let raw = self.w.rgit(&["cat-file", "blob", &blobs[0]]).out();
             rep.count("notes_checked", 1);
             let producer = self.produced_by.get(obj).cloned().unwrap_or("unknown");
+            let newline_path = self.w.tree_paths(obj).iter().any(|p| p.contains('\n'));
             match notes::parse_note(&raw) {
                 Err(e) => rep.violate(
-                    sig(self.pid, "note-unparseable"),
+                    // F6n: the format has no escaping rule for a newline in a path
+                    sig(self.pid, if newline_path { "path-contains-newline" } else { "note-unparseable" }),
                     format!("{when}: note of {obj} [{producer}]: {e}; head {:?}", raw.chars().take(200).collect::<String>()),
                 ),
                 Ok(n) => {
@@ -873,7 +887,7 @@ impl Engine {
                     for f in &n.files {
                         if !tree.contains(&f.path) {
                             rep.violate(
-                                sig(self.pid, if rewritten { "rewritten-commit-note-names-file-absent-from-commit" } else { "note-names-file-absent-from-commit" }),
+                                sig(self.pid, if newline_path { "path-contains-newline" } else if rewritten { "rewritten-commit-note-is-cumulative" } else { "note-names-file-absent-from-commit" }),
                                 format!("{when}: note of {obj} [{producer}] names {:?} which is not in the commit's tree", f.path),
                             );
                             continue;
@@ -883,7 +897,7 @@ impl Engine {
                             for (a, b) in &e.ranges {
                                 if *a < 1 || *b > nlines {
                                     rep.violate(
-                                        sig(self.pid, if rewritten { "rewritten-commit-note-lists-lines-beyond-file" } else { "note-lists-lines-beyond-file" }),
+                                        sig(self.pid, if rewritten { "rewritten-commit-note-is-cumulative" } else { "note-lists-lines-beyond-file" }),
                                         format!("{when}: note of {obj} [{producer}] lists {:?}:{a}-{b} but the file has {nlines} lines", f.path),
                                     );
                                     break;
@@ -1082,6 +1096,19 @@ impl Engine {
     pub fn run_op(&mut self, op: &HOp, rep: &mut CaseReport) -> OpOutcome {
         let kind = op.kind();
         let mut out = OpOutcome { kind, class: OpClass::Neutral, ok: true, conflicted: false, aborted: false };
+        if matches!(self.forced_layout, Some(2) | Some(3))
+            && self.known_taint.is_none()
+            && matches!(
+                op,
+                HOp::Rebase { .. } | HOp::CherryPick { .. } | HOp::MergeSquash { .. } | HOp::ResetSoft { .. } | HOp::ResetMixed { .. }
+                    | HOp::Amend { .. } | HOp::Merge { .. }
+            )
+            && self.deep_layout_in_effect()
+        {
+            // F13: batch note look-ups know only the flat and the one-level path
+            rep.class("rewrite-under-deep-notes-fanout");
+            self.known_taint = Some("deep-notes-fanout-not-found-by-batch-lookup");
+        }
         match op {
             HOp::Edit { actor, file, edit } => {
                 out.class = OpClass::Edit;
@@ -1106,6 +1133,64 @@ impl Engine {
                 }
                 if actor.is_ai() && eff.changed {
                     self.ai_pending = true;
+                }
+            }
+            HOp::Relayout { layout } => {
+                out.class = OpClass::MustNotChange;
+                let o = self.w.rgit(&["ls-tree", "-r", "refs/notes/ai"]);
+                if !o.ok() || o.out_trim().is_empty() {
+                    out.class = OpClass::Skipped;
+                    return out;
+                }
+                let before = self.ai_snapshot();
+                let mut info = String::new();
+                for (i, l) in o.out().lines().enumerate() {
+                    let Some((meta, path)) = l.split_once('\t') else { continue };
+                    let obj: String = path.chars().filter(|c| *c != '/').collect();
+                    if obj.len() < 6 {
+                        continue;
+                    }
+                    let oid = meta.split_whitespace().nth(2).unwrap_or("");
+                    let lay = if *layout % 4 == 3 { (i % 3) as u8 } else { *layout % 4 };
+                    let np = match lay {
+                        0 => obj.clone(),
+                        1 => format!("{}/{}", &obj[..2], &obj[2..]),
+                        _ => format!("{}/{}/{}", &obj[..2], &obj[2..4], &obj[4..]),
+                    };
+                    info.push_str(&format!("100644 {oid}\t{np}\n"));
+                }
+                let idx = self.w.sb.root.join("relayout.index");
+                let _ = std::fs::remove_file(&idx);
+                let idxs = idx.to_string_lossy().into_owned();
+                let repo = self.w.repo.clone();
+                let env = [("GIT_INDEX_FILE", idxs.as_str())];
+                let a = self.w.sb.real_git_full(&repo, &["update-index", "--index-info"], Some(info.as_bytes()), &env);
+                let t = self.w.sb.real_git_full(&repo, &["write-tree"], None, &env);
+                let tip = self.w.rev("refs/notes/ai").unwrap_or_default();
+                if !a.ok() || !t.ok() || tip.is_empty() {
+                    out.class = OpClass::Skipped;
+                    return out;
+                }
+                let tree = t.out_trim();
+                let c = self.w.rgit(&["commit-tree", &tree, "-p", &tip, "-m", "relayout"]);
+                let u = self.w.rgit(&["update-ref", "refs/notes/ai", &c.out_trim()]);
+                if !c.ok() || !u.ok() {
+                    out.class = OpClass::Skipped;
+                    return out;
+                }
+                self.forced_layout = Some(*layout % 4);
+                rep.class(format!("notes-layout:{}", layout % 4));
+                // git itself reads every layout: nothing observable may change
+                let listed = self.w.notes_list();
+                if listed.len() != info.lines().count() {
+                    rep.violate(sig(self.pid, "harness-relayout-broke-notes"), format!("{} notes before, {} after", info.lines().count(), listed.len()));
+                }
+                let after = self.ai_snapshot();
+                if before != after {
+                    rep.violate(
+                        sig(self.pid, "blame-changed-by-notes-relayout"),
+                        format!("layout {}: blame AI lines before {:?} / after {:?}", layout % 4, before, after),
+                    );
                 }
             }
             HOp::HumanCheckpoint { file } => {
@@ -1939,6 +2024,14 @@ impl Engine {
         let after = self.ai_snapshot();
         let keys_now = self.head_keys();
         rep.count("preservation_checks", 1);
+        // which commit git blame assigns each line to now: a line that comes from a
+        // commit that existed before the op (e.g. the upstream's version of it) is not
+        // something this op rewrote
+        let mut blame_commit: BTreeMap<String, String> = BTreeMap::new();
+        for p in self.w.tree_paths("HEAD") {
+            blame_commit.extend(self.w.blame_commit_by_key(&p));
+        }
+        let fresh: BTreeSet<String> = self.produced_by.iter().filter(|(_, k)| **k == kind).map(|(c, _)| c.clone()).collect();
         for (k, h) in before {
             if !keys_now.contains(k) {
                 continue;
@@ -1952,6 +2045,11 @@ impl Engine {
                 Some(h2) if h2 == h => rep.judged_strict += 1,
                 other => {
                     if in_conflict_zone {
+                        rep.judged_weak += 1;
+                        continue;
+                    }
+                    if blame_commit.get(k).map(|c| !fresh.contains(c)).unwrap_or(false) {
+                        rep.count("preservation_line_now_from_pre_existing_commit", 1);
                         rep.judged_weak += 1;
                         continue;
                     }
